@@ -49,7 +49,7 @@ def bounds(tier):
             "families": FAMS, "oversamp": list(OS), "width": list(WD)}
 
 
-GRIDS_Q = [[4], [5], [1], [8], [3, 4], [1, 4], [2, 2, 3]]
+GRIDS_Q = [[4], [5], [1], [8], [7], [3, 4], [4, 4], [1, 4], [6, 1], [2, 2, 3], [2, 1, 4]]
 GRIDS_T = [[4], [5], [1], [8], [7], [16], [3, 4], [4, 4], [5, 3], [1, 4], [6, 1], [2, 2, 3], [3, 3, 3], [2, 1, 4]]
 FAMS = ["random", "ongrid", "half", "cluster", "outside", "dense", "shifted"]
 
@@ -60,7 +60,7 @@ def gen_cases(tier, seed):
     for grid in (GRIDS_T if T else GRIDS_Q):
         for fam in FAMS:
             for osf, w in itertools.product(OS, WD):
-                if not T and (osf, w) not in ((1.25, 4), (2, 4)) and fam in ("dense", "shifted", "outside") and len(grid) > 1:
+                if not T and (osf, w) not in ((1.25, 4), (2, 4), (1.5, 3), (1.375, 5)) and fam in ("dense", "shifted", "outside") and len(grid) > 1:
                     continue
                 for batch in ([], [2]):
                     if batch and ((osf, w) not in ((1.25, 4), (2, 4)) or fam not in ("random", "half")):
